@@ -59,6 +59,12 @@ theorem cex_seconds_seed : idS 1000 7 2 = idS 1001 7 1 := by decide
 example : idN 1000000000 0 3000 < idN (1000000000 + 3000 * tick) 0 1 :=
   ids_disjoint_across_lives _ _ 0 3000 (Nat.le_refl _) 3000 1 (Nat.le_refl _) (Nat.le_refl _)
 
+/-- **the raw-text fast path of `getOrCreateJournal` reads `tmap` only** (regenerated: the maps indexed with a key built from
+the raw text parameter). `fast_path_sound`, `tindex_map_inv` and the roll-back / `Delete` reasoning assume that a raw text can
+reach a descriptor through `tmap` alone; a second map keyed by the client's spelling (seeded change C06-18: `amap`) is state the
+model does not have — `Delete` leaves it pointing to a dropped, exclusively locked descriptor and the spelling hangs. -/
+theorem fast_path_reads_only_tmap : Logrange.Generated.C06.fastPathMaps = ["tmap"] := by decide
+
 /-! ## FROM through a held cursor -/
 
 /-- `crsr.ApplyState` refuses a state that carries another query text (regenerated from `pkg/cursor/cursor.go`) -/
